@@ -284,7 +284,8 @@ def run_case(cls, params, rec):
 		rec.count("exact_threshold_cases")
 	lens = [len(s) for s in seqs]
 	params["_lens"] = lens
-	tm = {k: torch.from_numpy(v.copy()) for k, v in motifs.items()}
+	tm = {k: gen.relayout(torch.from_numpy(v.copy()), gen.layout_of(params,
+		"pwm", k))[0] for k, v in motifs.items()}
 	thr = params["threshold"]
 	kw = dict(bin_size=params["bin"], eps=params["eps"], threshold=thr,
 		reverse_complement=params["rc"])
@@ -318,6 +319,11 @@ def run_case(cls, params, rec):
 		base = None
 		for form, _ in variants:
 			src = seq_tensor(seqs) if form == "tensor" else fpath
+			if form == "tensor":
+				# same values as a view into a larger storage
+				lay = gen.layout_of(params)
+				src = gen.relayout(src, lay)[0]
+				rec.setadd("layouts", lay)
 			sn = None if form == "tensor" else fnames
 			mon = gen.Immutable(**({"X": src} if form == "tensor" else {}),
 				**{"pwm%d" % i: t for i, t in enumerate(tm.values())})
